@@ -57,6 +57,47 @@ theorem merge_log_is_trajectory (env : Env) (off : Bool) (pre : Fs) (es : List E
   unfold crashState
   rw [h2, h1, ← List.length_map (f := Prod.fst), List.take_length]
 
+/-- **Other names of a replaced file are never touched** (second sentence of the property, at every crash point):
+a path that is neither an entry location nor a `'#new'` sibling keeps its inode, content, permissions, ownership
+and mtime through every prefix of every merge — also when it is a *hard link to a file that is being replaced*
+(it shares the inode of an entry location, so any `chmod`/`chown`/`write` issued on the live path before the
+rename would show through it).  No `NoDirOverSymlink` guard is needed: the window of that finding concerns entry
+locations only. -/
+theorem outside_paths_untouched (env : Env) (off : Bool) (pre : Fs) (es : List Entry)
+    (hpre : pre.WF) (hdist : DistinctLocs es) (hclash : NoTmpClash es) (htree : TreeShaped es)
+    (hsym : NoSymOverDir pre es) (hhl : HardlinkConsistent es) (hsolo : SymAtDirSolo pre es)
+    (hroot : RootGuard off pre es) (hnr : NonDirsBelowRoot es)
+    (q : Path) (i : Nat) (nd : Inode) (hq : pre.view q = some (i, nd))
+    (hout : ∀ e ∈ es, e.loc ≠ q) (htmp : ¬ IsTmp es q) :
+    ∀ k : Nat, (crashState env pre (mergeContents env off es pre).1.log k).view q = some (i, nd) := by
+  intro k
+  have h := (merge_crash_states env off pre es hpre hdist hclash htree hsym hhl hsolo hroot hnr k).1 q
+  unfold OldPathSafeW OldPathSafe at h
+  simp only [hq] at h
+  rcases h with (h | ⟨e, he, hl, _⟩ | ⟨e, he, _, hl, _⟩ | h) | ⟨e, he, _, hl, _⟩
+  · exact h
+  · exact absurd hl (hout e he)
+  · exact absurd hl (hout e he)
+  · exact absurd h htmp
+  · exact absurd hl (hout e he)
+
+/-- a set-uid binary with a second name outside the contents set is replaced: the hypotheses hold, the merge
+succeeds with 7 calls, and through all of its crash points the other name still shows the old inode with its
+`04755` -/
+def hlPre : Fs :=
+  ⟨[([], 1, ⟨.dir, 0o755, 0, 0, 0⟩), (["bin"], 2, ⟨.dir, 0o755, 0, 0, 0⟩), (["stash"], 4, ⟨.dir, 0o700, 0, 0, 0⟩),
+    (["su", "bin"], 3, ⟨.file "6f6c64", 0o4755, 0, 0, 1000⟩), (["kept", "stash"], 3, ⟨.file "6f6c64", 0o4755, 0, 0, 1000⟩)], 5⟩
+def hlEs : List Entry := [⟨["su", "bin"], .reg "6e6577" none, 0o4755, 0, 0, 2000⟩]
+
+example : (mergeContents exEnv true hlEs hlPre).2.isOk = true ∧ (mergeContents exEnv true hlEs hlPre).1.log.length = 7 ∧
+    DistinctLocs hlEs ∧ NoTmpClash hlEs ∧ TreeShaped hlEs ∧ NoSymOverDir hlPre hlEs ∧ HardlinkConsistent hlEs ∧
+    SymAtDirSolo hlPre hlEs ∧ RootGuard true hlPre hlEs ∧ NonDirsBelowRoot hlEs ∧
+    (∀ e ∈ hlEs, e.loc ≠ ["kept", "stash"]) ∧ ¬ IsTmp hlEs ["kept", "stash"] ∧
+    ((crashStates exEnv hlPre (mergeContents exEnv true hlEs hlPre).1.log).all fun f =>
+      decide (f.view ["kept", "stash"] = some (3, ⟨.file "6f6c64", 0o4755, 0, 0, 1000⟩))) = true ∧
+    (mergeContents exEnv true hlEs hlPre).1.fs.view ["su", "bin"] = some (5, ⟨.file "6e6577", 0o4755, 0, 0, 2000⟩) := by
+  decide
+
 /-! non-vacuity: the example merge of C18 (a file replaced through its `'#new'` sibling, a hard link, a kept
 directory with a change of ownership, missing parents) satisfies all hypotheses, has 14 calls, and e.g. its crash
 point 4 (temporary written, ownership not yet set) is crash-safe by evaluation as well -/
